@@ -96,6 +96,15 @@ def build_cmds(names=("trz", "tsz", "trzsz")):
     return outs
 
 
+def default_signals():
+    """preexec_fn: a check started under nohup or as a background job of a non-interactive shell inherits
+    ignored SIGHUP / SIGINT / SIGQUIT; the code under test and the helper processes it starts must see the
+    default dispositions whatever the check was started from."""
+    import signal
+    for sg in (signal.SIGHUP, signal.SIGINT, signal.SIGQUIT, signal.SIGTERM, signal.SIGPIPE):
+        signal.signal(sg, signal.SIG_DFL)
+
+
 def run_driver(binary, driver, outdir, params=None, timeout=1200, extra_env=None):
     """Run one harness driver (a Go test function selected by VERIF_DRIVER).  The driver writes
     its traces / results under outdir and a summary.json; returns the parsed summary."""
@@ -107,7 +116,8 @@ def run_driver(binary, driver, outdir, params=None, timeout=1200, extra_env=None
     cmd = [binary, "-test.run", "^TestVerifDriver$", "-test.timeout", "%ds" % (timeout + 30), "-test.v"]
     t0 = time.time()
     try:
-        p = subprocess.run(cmd, cwd=outdir, env=env(e), capture_output=True, text=True, timeout=timeout + 60)
+        p = subprocess.run(cmd, cwd=outdir, env=env(e), capture_output=True, text=True, timeout=timeout + 60,
+                           preexec_fn=default_signals)
     except subprocess.TimeoutExpired:
         raise Infra("driver %s timed out after %ds" % (driver, timeout))
     sfile = os.path.join(outdir, "summary.json")
